@@ -194,7 +194,18 @@ func fundCase(kind string, s txgen.TxSpec, q feegen.Quote, hist []response, hyp 
 	for _, d := range calls {
 		cs = append(cs, fmt.Sprint(d))
 	}
-	coq := fmt.Sprintf("CFund %s %s [%s] %s %s [%s] %d %s %s %d %s", feegen.CoqTx(s), q.Coq(), strings.Join(hs, "; "), b2s(hyp),
+	// the theorems' no-overflow hypothesis is about the transaction Fund leaves behind: the value of the inputs it appended may
+	// push the input total past 2^64 (three UTXOs of 2^63/3 each, twice), which no ledger can supply and the property does not
+	// speak about; the flag handed to the model is computed from the same sums as the model's no_overflow
+	hypModel := hyp
+	if hyp {
+		margin := new(big.Int).Add(feegen.SumOut(after), new(big.Int).Lsh(big.NewInt(1), 44))
+		if feegen.SumIn(after).BitLen() > 64 || margin.BitLen() > 64 {
+			hypModel = false
+			c.Tally("fund/" + kind + "/totals-exceed-2^64")
+		}
+	}
+	coq := fmt.Sprintf("CFund %s %s [%s] %s %s [%s] %d %s %s %d %s", feegen.CoqTx(s), q.Coq(), strings.Join(hs, "; "), b2s(hypModel),
 		feegen.Obs(pan, err, "tt"), strings.Join(cs, "; "), len(calls), feegen.CoqIns(newIns), b2s(restSame),
 		tx.TotalInputSatoshis(), feegen.Obs(p2, enoughErr, b2s(enough)))
 	verdict := "ok"
